@@ -21,7 +21,7 @@ from cryptography.hazmat.primitives.asymmetric.utils import decode_dss_signature
 # eddsa25519ph is not supported by cryptography, so we need to use pycryptodome
 from Crypto.PublicKey import ECC
 from Crypto.Signature import eddsa
-from Crypto.Hash import SHA512
+from Crypto.Hash import SHA512, SHAKE256
 import math
 
 from suit_generator.suit_kms_base import SuitKMSBase
@@ -110,8 +110,9 @@ class SuitKMS(SuitKMSBase):
         return private_key.sign(input_data)
 
     def _create_cose_ed_prehashed_signature(self, input_data, private_key) -> bytes:
-        prehashed_message = SHA512.new(input_data)
         key = ECC.import_key(private_key)
+        # RFC 8032: Ed25519ph pre-hashes with SHA-512, Ed448ph with SHAKE256
+        prehashed_message = SHAKE256.new(input_data) if key.curve == "Ed448" else SHA512.new(input_data)
         signer = eddsa.new(key, "rfc8032")
         return signer.sign(prehashed_message)
 
